@@ -48,6 +48,29 @@ def double(x): return 2 * x
 def triple(x): return 3 * x
 
 
+def scaled_by(k):
+    """an application decorator written the usual way (functools.wraps): what is shipped is the decorated function"""
+    def deco(f):
+        @functools.wraps(f)
+        def inner(*a, **kw): return k * f(*a, **kw)
+        return inner
+    return deco
+
+
+@scaled_by(3)
+def tripled_plus_one(x): return x + 1
+
+
+def clamped(f):
+    @functools.wraps(f)
+    def inner(x): return max(0, f(x))
+    return inner
+
+
+@clamped
+def minus_four(x): return x - 4
+
+
 def make_offset(off):
     def shifted(x): return x + off
     return shifted
@@ -87,7 +110,7 @@ def build(x, y): return [Point(x, y).x, Point3(x, y, 1).z, isinstance(Point3(x, 
 
 
 def gen_case(rng):
-    k = rng.randrange(16)
+    k = rng.randrange(18)
     n, m = rng.randint(0, 9), rng.randint(-5, 5)
     if k == 0:  return 'add',       add, (n, m), {}
     if k == 1:  return 'add_kw',    add, (n,), {'b': m}
@@ -104,6 +127,8 @@ def gen_case(rng):
     if k == 12: return 'eval',      by_eval, (rng.choice(['double', 'triple']), n), {}
     if k == 13: return 'table',     table, (rng.choice(['double', 'triple']), n), {}
     if k == 14: return 'hash_set',  in_set, (Point(n, m), n, rng.choice([m, m + 1])), {}
+    if k == 16: return 'decorated', tripled_plus_one, (n,), {}
+    if k == 17: return 'decorated_clamp', minus_four, (n,), {}
     return 'construct', build, (n, m), {}
 
 
